@@ -8,8 +8,8 @@ ALL = ["C%02d" % i for i in range(1, 21)]
 
 CHECKS = {
  "C01": dict(
-  technique="TLC trace validation (TraceCore.tla, invariant Inv_Sat) of executions of the real code on a recording small-prime backend",
-  text="Model checking by trace validation: every public call of ~50k generated programs (all operators, assertions, conversions, selection, arrays x operand kinds x value window x guard/ignore modes, random compositions) is replayed into spec/TraceCore.tla; TLC evaluates R1CS!Holds for every emitted constraint on the recorded witness after every call.",
+  technique="TLC trace validation (TraceCore.tla, invariant Inv_Sat) of executions of the real code on a recording small-prime backend; TLC model checking of the mechanism spec Tracer.tla (Sat / value==wire / booleans) with behaviour-by-behaviour conformance replay (TracerConf.tla)",
+  text="Model checking by trace validation: every public call of ~50k generated programs (all operators, assertions, conversions, selection, arrays x operand kinds x value window x guard/ignore modes, random compositions; the same calls after a region was entered and left, incl. through a caught exception) is replayed into spec/TraceCore.tla; TLC evaluates R1CS!Holds for every emitted constraint on the recorded witness after every call. Tracer.tla (mechanism transcription of the integer and fixed-point gadgets) is model checked for the same invariants and every behaviour it prints is replayed into the code; witness, constraints and objects must equal the model's (MODEL-DRIFT otherwise).",
   note="Field-parametric instantiation with small primes (67..32749); TLC arithmetic is native. Trusts TLC, the recorder/driver as observers. Bounded: window -2^b-1..2^b+1, b in 2..6, programs of <= 10 calls.",
   design="5/C01"),
  "C04": dict(
@@ -19,12 +19,12 @@ CHECKS = {
   design="5/C04"),
  "C02": dict(
   technique="TLC exhaustive adversarial-witness search (Soundness.tla, Inv_Unique) over constraint systems captured from the real code in small prime fields",
-  text="Model checking: for each value-returning operation (operators, comparisons, checks, bit decomposition, selection incl. lazily evaluated branches, array get/set at a secret index, fixed-point ops; secret/secret, secret/const, const/secret; unguarded and under a true guard) the R1CS the real code emitted is handed to TLC with operands fixed and every wire the call allocated free; TLC enumerates all P values per wire with constraint pruning and checks that every accepted witness yields the honest result and 0/1 for booleans. Exhaustive in the small field.",
+  text="Model checking: for each value-returning operation (operators, comparisons, checks, bit decomposition, selection incl. lazily evaluated branches, array get/set at a secret index, fixed-point ops; secret/secret, secret/const, const/secret; unguarded and under a true guard) the R1CS the real code emitted is handed to TLC with operands fixed and every wire the call allocated free; TLC enumerates all P values per wire with constraint pruning and checks that every accepted witness yields the honest result and 0/1 for booleans. End-to-end variants fix only the program inputs: sequences of gadgets on one object (also after a false-guard region, also after an exception the program caught) and block-API programs (_if/_elif/_else with conditions as inputs). Exhaustive in the small field.",
   note="Per-operation (composition assumed for programs); fields P=67/257/1031 with no-wrap margin, division-based families in P=13/17; uniform-in-the-field assumption for transfer to 254-bit primes. Known findings (quotient unconstrained; bitwise-with-constant free) are characterised exactly in spec/KnownDeviations.tla and anything outside is reported.",
   design="5/C02"),
  "C03": dict(
   technique="TLC adversarial-witness search (Soundness.tla, Inv_Enforced/Inv_EnforcedFree/Inv_Complete/Inv_SameRel) on captured constraint systems, three-way agreement with PyRef!Rel and observed run-time acceptance",
-  text="Model checking: every assertion kind x operand kinds x boundary-straddling values x widths is captured with error checks off and paired with the run-time verdict of the same call; TLC computes the reference relation, searches all completions (unsatisfiable when false, honest witness satisfies when true and accepted, acceptance == relation). A free-operand variant makes the operand wires adversarial too, so one instance covers every operand value of the field.",
+  text="Model checking: every assertion kind x operand kinds x boundary-straddling values x widths is captured with error checks off and paired with the run-time verdict of the same call; TLC computes the reference relation, searches all completions (unsatisfiable when false, honest witness satisfies when true and accepted, acceptance == relation). A free-operand variant makes the operand wires adversarial too, so one instance covers every operand value of the field. End-to-end sequences assert the same object twice (first inside a false-guard region, or after a region that was left through a caught exception).",
   note="Small prime fields (13, 37, 67, 257); relation on residues for the free-operand variant; per-assertion.",
   design="5/C03"),
  "C05": dict(
@@ -38,18 +38,18 @@ CHECKS = {
   note="Bounded to the generated program families (~20k runs quick) in small prime fields; canonical forms come from the independent recorder LC class.",
   design="5/C06"),
  "C07": dict(
-  technique="TLC trace validation of zipped unguarded / true-guard / false-guard runs (TraceGuarded.tla) + TraceCore!Inv_Sat on false-guard runs + Soundness.tla search on lazily evaluated selections and on assertions under a true guard",
-  text="Model checking by trace validation: every body (operators, assertions, conversions, selection, array reads, fixed point; value window incl. values invalid for the body; seeded multi-call bodies) is run unguarded, under guard 1 and under guard 0 with the condition typed as secret integer, secret boolean and comparison result, nesting depth 2; TLC checks no value-caused raise and full-length execution under the false guard, constraint satisfaction of the false-guard witness, identical outcomes/exception classes/values under the true guard, uniqueness of the selected value when the untaken branch's wires are adversarial, and enforcement of assertions under a true guard.",
+  technique="TLC trace validation of zipped unguarded / true-guard / false-guard runs (TraceGuarded.tla) + TraceCore!Inv_Sat on false-guard runs + TraceCF.tla (native control flow) on block-API bodies in dead arms + Soundness.tla search on lazily evaluated selections and on assertions under a true guard",
+  text="Model checking by trace validation: every body (operators, assertions, conversions, selection, array reads, fixed point; value window incl. values invalid for the body; seeded multi-call bodies) is run unguarded, under guard 1 and under guard 0 with the condition typed as secret integer, secret boolean and comparison result, nesting depth 2; TLC checks no value-caused raise and full-length execution under the false guard, constraint satisfaction of the false-guard witness, identical outcomes/exception classes/values under the true guard, uniqueness of the selected value when the untaken branch's wires are adversarial, and enforcement of assertions under a true guard. Block-API programs (_if/_elif/_else/_while/_for) whose arms that are not taken divide inexactly, compare out of range or update containers in place must end with the native values.",
   note="Small prime fields (67/257; 13 for the adversarial search of untaken branches). Known finding: division by a zero-valued secret raises under a false guard.",
   design="5/C07"),
  "C08": dict(
   technique="TLC model checking of Guard.tla (mechanism + contract: NestConj, IgnConj, OneBound, TopLevelClean, RestoreOnEnd) + replay of every TLC-generated history into the code + trace validation against Guard.tla (TraceGuard.tla)",
-  text="Model checking with conformance: Guard.tla models add_guard/restore_guard/guarded and exception unwinding through guarded regions and user try blocks; TLC checks the contract on it exhaustively, prints every complete history (enter 0/1, leave, raise at any point, rejected entry, try/catch, ignore switches; length<=6, depth<=3 quick), each history is rendered as a program and run on the real code, and the recorded guard triple (values, flags and object identities) is validated step by step against the spec's actions; restore-on-every-exit-path and conjunction nesting are checked on what the code reported.",
+  text="Model checking with conformance: Guard.tla models add_guard/restore_guard/guarded and exception unwinding through guarded regions and user try blocks; TLC checks the contract on it exhaustively, prints every complete history (enter 0/1, leave, raise at any point, rejected entry, try/catch, ignore switches; length<=6, depth<=3 quick), each history is rendered as a program and run on the real code, and the recorded guard triple (values, flags and object identities) is validated step by step against the spec's actions; restore-on-every-exit-path and conjunction nesting are checked on what the code reported. Event sequences of Branching.tla that end in a structural error of the block API are replayed inside try blocks and judged by the same invariants.",
   note="Histories bounded by length/depth (8/4 thorough + simulation to length 14); mismatch in parts of the triple the property does not mention is reported as MODEL-DRIFT, not a violation.",
   design="5/C08"),
  "C09": dict(
-  technique="TLC evaluation of a TLA+ native-control-flow interpreter (NativeCF.tla, TraceCF.tla Inv_CF) against runs of the block API on the real code, plus TraceCore and TraceShape on the same runs",
-  text="Model checking by trace validation: ~45 structured program texts (if / if-else / if-elif-else, nesting, for over a secret bound with public maximum with/without break and bound check, while with public cap and break, compositions) are rendered as block-API calls and run for every input vector of a small window (both condition typings); TLC interprets the same AST natively and compares all final variables, checks no raise inside the domain and refusal of a bound above the maximum, constraint satisfaction / value==wire of the run, and equality of the constraint system across all inputs of one program.",
+  technique="TLC model checking of Branching.tla (merge mechanism of the block API == native execution, every well-nested event sequence) with replay of every closed sequence into the code (BranchConf.tla) + TLC evaluation of a native-control-flow interpreter (NativeCF.tla, TraceCF.tla Inv_CF) against runs of the block API, plus TraceCore and TraceShape on the same runs",
+  text="Model checking with conformance: Branching.tla transcribes the context stack, backup, merge-by-selection, nodef bookkeeping and condition chaining next to a native execution; TLC checks equality at depth 0 for all sequences (length<=5 quick / 6 thorough), every closed sequence is replayed through the real API. Trace validation: ~50 structured program texts (if / if-else / if-elif-else, nesting, Arrays and matrices updated in place, divisions in dead arms, for over a secret bound with public maximum with/without break and bound check, while with public cap and break, compositions) are rendered as block-API calls and run for every input vector of a small window (both condition typings); TLC interprets the same AST natively and compares all final variables, checks no raise inside the domain and refusal of a bound above the maximum, constraint satisfaction / value==wire of the run, and equality of the constraint system across all inputs of one program.",
   note="Bounded program family and input window; the renderer harness/cfdriver.py is trusted as an observer. Relies on fix: commits 7b3a3bb, 395c6f5, 8a8c07c (without them no behaviour of this API exists).",
   design="5/C09"),
  "C14": dict(
@@ -59,7 +59,7 @@ CHECKS = {
   design="5/C14"),
  "C15": dict(
   technique="TLC-generated access histories (ArrayMem.tla) replayed into the code and validated against the list-semantics spec (TraceArray.tla); Soundness.tla for bounds enforcement and uniqueness; TraceShape.tla across index values",
-  text="Model checking with conformance: ArrayMem.tla specifies a Python list (1-D length 1..3, 2x2) with get/set/row actions incl. out-of-range; TLC enumerates every history of up to 2 (quick) / 3 (thorough) accesses with every index in -1..len, each is replayed with secret indices on the real Array, and after every access the outcome, returned value and the contents of all cells reported by the code must equal the spec's; additionally out-of-range indices are unsatisfiable in-circuit, read values/written cells are unique under an adversarial witness, and constraints are identical for all index values.",
+  text="Model checking with conformance: ArrayMem.tla specifies Python lists (a 1-D array of length 1..3 next to a second array, a 2x2 and a 3x2 array) with get/set/row actions incl. out-of-range, secret and public index kinds, index OBJECTS (fresh / re-used / shared between row and column) and writes inside an oblivious branch (taken / not taken); TLC enumerates the histories of up to 2 accesses (quick: stratified subset; thorough: all, plus 160k random histories of 3 accesses; the reference itself is model checked at 3 accesses), each is replayed on the real Array, and after every access the outcome, returned value and the contents of all cells reported by the code must equal the spec's; additionally out-of-range indices are unsatisfiable in-circuit, read values/written cells are unique under an adversarial witness, and constraints are identical for all index values.",
   note="Bounded shapes/histories; cells mix secrets and constants; small prime fields.",
   design="5/C15"),
  "C16": dict(
@@ -78,8 +78,8 @@ CHECKS = {
   note="Coefficients stay small because scalars are s + t*p; primality of the curve-order constants is checked once by sympy in setup_cmd, not by TLC; flatbuffers import shim and qaptools stub binaries are used to load the backends.",
   design="5/C13"),
  "C10": dict(
-  technique="TLC evaluation of SnarkjsFile.tla (WellFormed, Canonical, FaithfulCircuit, FaithfulWitness, FileSat) on independently decoded circuit.r1cs / witness.wtns, small-prime instantiation + bn128 with BigNat limb arithmetic and quotient certificates",
-  text="Model checking by trace validation of artefacts: ~190 programs (random compositions in all guard/ignore modes, every operator with mixed signs, witness classes negative / >= p / wider than 256 bit, zero coefficients, empty linear combinations, empty circuit) run on the real pysnark.snarkjsbackend with the modulus rebound to 251, and ~45 at the real bn128 prime; prove() writes the files in a scratch directory, an independent parser decodes them, and TLC decides container well-formedness (magic, version, section table, declared sizes vs content, counts), canonicity of every element, equality with the backend's in-memory trace under the wire numbering one/public/private, and satisfaction of the decoded constraints by the decoded witness.",
+  technique="TLC evaluation of SnarkjsFile.tla (WellFormed, Canonical, FaithfulCircuit, FaithfulWitness, FileSat) on independently decoded circuit.r1cs / witness.wtns, small-prime instantiation + bn128 with BigNat limb arithmetic and quotient certificates; byte-level conformance with the writer's mechanism spec SnarkjsWriter.tla",
+  text="Model checking by trace validation of artefacts: ~190 programs (random compositions in all guard/ignore modes, every operator with mixed signs, witness classes negative / >= p / wider than 256 bit, zero coefficients, empty linear combinations, empty circuit) run on the real pysnark.snarkjsbackend with the modulus rebound to 251, and ~45 at the real bn128 prime; prove() writes the files in a scratch directory, an independent parser decodes them, and TLC decides container well-formedness (magic, version, section table, declared sizes vs content, counts), canonicity of every element, equality (as multisets with multiplicity) with what the library handed to the backend interface (recorded by a spy) under the wire numbering one/public/private, and satisfaction of the decoded constraints by the decoded witness. SnarkjsWriter.tla predicts both files byte for byte from the traced system (difference = MODEL-DRIFT).",
   note="nLabels and the nPubOut/nPubIn/nPrvIn split are not judged; certificates are harness-supplied, the integer identities are TLC's.",
   design="5/C10"),
  "C11": dict(
@@ -89,8 +89,8 @@ CHECKS = {
   design="5/C11"),
  "C18": dict(
   technique="TLC model checking of ExitHook.tla (mechanism of atexitmaybe/final + contract Inv_Exit) whose behaviours enumerate every configuration; one fresh interpreter per configuration, observations judged by TraceExit.tla",
-  text="Model checking with conformance (exhaustive product): ExitHook.tla models the interposed sys.exit / sys.excepthook, the atexit hook and CPython's exit statuses for 12 ways of terminating at 3 positions with autoprove on/off; TLC checks the contract on the model (the SystemExit bypass paths are its only counterexamples) and prints every finished behaviour; each becomes one script run in a fresh interpreter per file-writing backend (snarkjs, zkinterface, qaptools); exit status, presence and decoded size of the artefacts vs what had been traced, number of proving steps and hook errors are judged by TLC against the contract and compared with the model's prediction.",
-  note="Known finding: raise SystemExit(n!=0) / builtin exit(n!=0) still prove. qaptools executables are failing stubs (artefact = schedule + per-function equation files written by the backend's own splitting step).",
+  text="Model checking with conformance (exhaustive product): ExitHook.tla models the interposed sys.exit / sys.excepthook, the atexit hook and CPython's exit statuses for an optional earlier sys.exit call that did not end the process (caught, or overridden in a finally clause) x 12 ways of terminating at 3 positions with autoprove on/off; TLC checks the contract on the model (the SystemExit bypass paths are its only counterexamples) and prints every finished behaviour; each becomes one script run in a fresh interpreter per file-writing backend (snarkjs, zkinterface, qaptools); exit status, presence and decoded size of the artefacts vs what had been traced, number of proving steps and hook errors are judged by TLC against the contract and compared with the model's prediction.",
+  note="Known findings: raise SystemExit(n!=0) / builtin exit(n!=0) still prove; a caught sys.exit(n!=0) leaves a stale failure code (successful run not proved). qaptools executables are failing stubs (artefact = schedule + per-function equation files written by the backend's own splitting step).",
   design="5/C18", category="model_checking"),
  "C19": dict(
   technique="TLC model checking of Select.tla (transcribed three-stage selection + contract) whose states enumerate every configuration; one fresh interpreter per configuration, outcomes judged by TraceSelect.tla",
@@ -103,8 +103,8 @@ CHECKS = {
   note="Reference parameters are the repository's tables as data; no published vector exists for the curve25519 set; known finding: parameters follow the generic name when a specific zkinterface module is pre-imported (C19).",
   design="5/C20"),
  "C12": dict(
-  technique="TLC evaluation of Qap.tla (EqSat, PubLinked, OneContext, SplitComplete, SameFn, Glue) on the qaptools text files parsed by an independent reader, one interpreter per call history, small-prime instantiation",
-  text="Model checking by trace validation of artefacts: call histories (main only; a sub-circuit called 1-3 times; two different bodies under one name; equal bodies; nested sub-circuits; structured arguments/results; a comparison inside a sub-circuit) x value pairs incl. negatives run on pysnark.qaptools.backend over p=251 with failing stub executables; TLC decides that every equation holds on the wire and I/O values, every public value is listed and linked, every equation stays in one context, the per-function files written by the backend's own splitting step contain exactly the normalised equations and blocks of a call, calls of one name have equal circuits and digests or the inconsistency is reported, and every call is glued by paired blocks of equal length with pairwise equal values and a shared rnd1 listing all arguments and results.",
+  technique="TLC model checking of QapCtx.tla (call-context mechanism: unique call ids and block names, glue shape, split sees every equation) with replay of its histories (QapConf.tla) + TLC evaluation of Qap.tla (EqSat, PubLinked, OneContext, SplitComplete, SameFn, Glue) on the qaptools text files parsed by an independent reader, one interpreter per call history, small-prime instantiation",
+  text="Model checking with conformance: QapCtx.tla transcribes per-context counters, call naming, argument/result copies, glue blocks and flush points; its closed histories are replayed and ids, blocks, glue records and equation counts found in the files compared with the prediction. Trace validation of artefacts: call histories (main only; nested calls with identical outer and different inner bodies; duplicate assertions; a sub-circuit called 1-3 times; two different bodies under one name; equal bodies; nested sub-circuits; structured arguments/results; a comparison inside a sub-circuit) x value pairs incl. negatives run on pysnark.qaptools.backend over p=251 with failing stub executables; TLC decides that every equation holds on the wire and I/O values, every public value is listed and linked, every equation stays in one context, the per-function files written by the backend's own splitting step contain exactly the normalised equations and blocks of a call, calls of one name have equal circuits and digests or the inconsistency is reported, and every call is glued by paired blocks of equal length with pairwise equal values and a shared rnd1 listing all arguments and results.",
   note="External qaptools binaries are stubs that fail: key generation / proving itself is not exercised. Known finding: the global constant one inside a sub-circuit mixes contexts.",
   design="5/C12"),
 }
